@@ -32,7 +32,8 @@ Definition tkind_eqb (a b : tkind) : bool :=
   match a, b with TReg, TReg | TDir, TDir | TSym, TSym | TOther, TOther => true | _, _ => false end.
 (* uid/gid are Z: -1 = not observable through the FullFS interface (the link
    node of a symbolic link) *)
-Record tnode := { t_path : path; t_kind : tkind; t_sum : N; t_mode : N; t_uid : Z; t_gid : Z }.
+Record tnode := { t_path : path; t_kind : tkind; t_sum : N; t_mode : N; t_uid : Z; t_gid : Z;
+                  t_link : path (* symbolic links: the target string split at "/" *) }.
 Record dbent := { d_path : path; d_dir : bool; d_uid : N; d_gid : N; d_perm : N; d_sum : option N }.
 Record dbpkg := { dp_name : string; dp_entries : list dbent }.
 
@@ -42,120 +43,230 @@ Fixpoint tree_get (t : list tnode) (p : path) : option tnode :=
   | n :: t' => if path_eqb (t_path n) p then Some n else tree_get t' p
   end.
 
-(* ---- validator 1: the rule table, on regular files ------------------------
+(* "exists at path p" with the meaning lstat(2) gives it: the directories on the
+   way are resolved through symbolic links (the resolution of Model/Install.v,
+   which is the one the three filesystems implement), the last component is not.
+   The observed tree lists every node under its canonical path only. *)
+Definition node_of_tnode (n : tnode) : node :=
+  match t_kind n with
+  | TDir => NDir (t_mode n)
+  | TReg => NFile (t_sum n) (t_mode n) None true
+  | TSym => NSym (t_sum n) None (t_link n)
+  | TOther => NOther
+  end.
+Definition fs_of_tree (t : list tnode) : fsmap := List.map (fun n => (t_path n, node_of_tnode n)) t.
+Definition canon_path (t : list tnode) (p : path) : option path :=
+  match tree_get t p with
+  | Some _ => Some p
+  | None => match resolve_parent (fs_of_tree t) p with
+            | Some q => Some (q ++ [base_of p])
+            | None => None
+            end
+  end.
+Definition tree_lookup (t : list tnode) (p : path) : option tnode :=
+  match canon_path t p with Some q => tree_get t q | None => None end.
+
+(* ---- validator 1: the rule table, on regular files, symbolic links and
+   directories ---------------------------------------------------------------
    A walk over the packages in install order that keeps, per path, the package
-   whose regular file is installed there. [dec] is the rule in force. *)
+   whose entry is installed there (with its kind). Two entries are "identical
+   content" when they are of the same KIND and (regular files: same bytes;
+   links: same target; directories: always). A directory and a file, a file and
+   a link, a link and a directory at one path are never identical content: the
+   rule table decides, and the build may only succeed with the winner's entry
+   in the tree. *)
+Definition same_entry (gk wk : kind) (gs ws : N) : bool :=
+  kind_eqb gk wk && match gk with KDir => true | _ => N.eqb gs ws end.
+Definition spec_clash_k (got want : pkg) (gk wk : kind) (gs ws : N) : decision :=
+  spec_decide (same_entry gk wk gs ws) (declares got want) (declares want got)
+    (spec_same_origin (p_origin got) (p_origin want)).
+
 Definition owners := list (path * (nat * N * kind)).
 Fixpoint own_get (m : owners) (p : path) : option (nat * N * kind) :=
   match m with [] => None | (q, v) :: m' => if path_eqb q p then Some v else own_get m' p end.
 
-Inductive walk_res := WOk (m : owners) | WConflict (p : path) | WFail.
-Definition rule := kind -> pkg -> pkg -> N -> N -> option decision.   (* None = the build fails some other way *)
+(* what a rule answers at a clash: a decision, "the build fails some other way",
+   or "cannot be told from the packages alone" (the walk stops there) *)
+Inductive qans := QDec (d : decision) | QFail | QStop.
+(* old kind, new kind, old package, new package, old sum, new sum; the strings
+   name the known deviations from the rule table that the answer exercises *)
+Definition rule := kind -> kind -> pkg -> pkg -> N -> N -> qans * list string.
 
-Fixpoint walk_files (dec : rule) (pkgs : list pkg) (i : nat) (me : pkg) (m : owners) (hs : list hdr) : walk_res :=
+Inductive walk_res :=
+| WOk (m : owners) (u : list string)
+| WConflict (p : path) (u : list string)
+| WFail (u : list string)
+| WStop (p : path) (wk : kind) (gs : N) (u : list string).
+
+Fixpoint walk_files (dec : rule) (pkgs : list pkg) (i : nat) (me : pkg) (m : owners) (u : list string) (hs : list hdr) : walk_res :=
   match hs with
-  | [] => WOk m
+  | [] => WOk m u
   | h :: more =>
       match h_kind h with
-      | KReg | KSym =>
+      | KLink => walk_files dec pkgs i me m u more
+      | _ =>
           match own_get m (h_path h) with
-          | None => walk_files dec pkgs i me ((h_path h, (i, h_sum h, h_kind h)) :: m) more
-          | Some (j, gs, _) =>
-              match dec (h_kind h) (nth j pkgs no_pkg) me gs (h_sum h) with
-              | Some KeepOld => walk_files dec pkgs i me m more
-              | Some Overwrite => walk_files dec pkgs i me ((h_path h, (i, h_sum h, h_kind h)) :: m) more
-              | Some Conflict => WConflict (h_path h)
-              | None => WFail
+          | None => walk_files dec pkgs i me ((h_path h, (i, h_sum h, h_kind h)) :: m) u more
+          | Some (j, gs, gk) =>
+              match dec gk (h_kind h) (nth j pkgs no_pkg) me gs (h_sum h) with
+              | (QDec KeepOld, t) => walk_files dec pkgs i me m (u ++ t) more
+              | (QDec Overwrite, t) => walk_files dec pkgs i me ((h_path h, (i, h_sum h, h_kind h)) :: m) (u ++ t) more
+              | (QDec Conflict, t) => WConflict (h_path h) (u ++ t)
+              | (QFail, t) => WFail (u ++ t)
+              | (QStop, t) => WStop (h_path h) (h_kind h) gs (u ++ t)
               end
           end
-      | _ => walk_files dec pkgs i me m more
       end
   end.
-Fixpoint walk_pkgs (dec : rule) (pkgs : list pkg) (i : nat) (m : owners) (todo : list pkg) : walk_res :=
+Fixpoint walk_pkgs (dec : rule) (pkgs : list pkg) (i : nat) (m : owners) (u : list string) (todo : list pkg) : walk_res :=
   match todo with
-  | [] => WOk m
+  | [] => WOk m u
   | me :: more =>
-      match walk_files dec pkgs i me m (p_files me) with
-      | WOk m' => walk_pkgs dec pkgs (S i) m' more
+      match walk_files dec pkgs i me m u (p_files me) with
+      | WOk m' u' => walk_pkgs dec pkgs (S i) m' u' more
       | r => r
       end
   end.
-Definition spec_rule : rule := fun _ got want gs ws => Some (spec_clash got want gs ws).
-Definition spec_walk (pkgs : list pkg) : walk_res := walk_pkgs spec_rule pkgs 0 [] pkgs.
+Definition spec_rule : rule := fun gk wk got want gs ws => (QDec (spec_clash_k got want gk wk gs ws), []).
+Definition spec_walk (pkgs : list pkg) : walk_res := walk_pkgs spec_rule pkgs 0 [] [] pkgs.
 
-(* the two ways the backends are known to leave the table (used only to NAME a
-   violation precisely; a violation is whatever differs from [spec_walk]) *)
-Definition lazy_empty_origin_rule : rule := fun _ got want gs ws =>
-  Some (spec_decide (N.eqb gs ws) (declares got want) (declares want got) (String.eqb (p_origin got) (p_origin want))).
-(* streaming: a regular file of a package without origin fails on any clash
-   (q1); a symbolic link that differs from the one in place always fails (q2) *)
-Definition stream_quirk_rule (q1 q2 : bool) : rule := fun k got want gs ws =>
-  match k with
-  | KSym => if q2 then (if N.eqb gs ws then Some KeepOld else None) else Some (spec_clash got want gs ws)
-  | _ => if q1 && String.eqb (p_origin want) "" then None else Some (spec_clash got want gs ws)
-  end.
+(* ---- the known ways the backends leave the table -------------------------
+   Used only to NAME a violation precisely; a violation is whatever differs from
+   [spec_walk]. Each deviation that an answer exercises is recorded by its tag. *)
+Definition decision_eqb (a b : decision) : bool :=
+  match a, b with KeepOld, KeepOld | Overwrite, Overwrite | Conflict, Conflict => true | _, _ => false end.
+Definition t_dir_clash := "viol:kind-clash-with-directory-fails-other-error".
+Definition t_dir_over_link := "viol:dir-header-over-symlink-accepted".
+Definition t_follow_link := "viol:stream-file-over-symlink-follows-link".
+Definition t_lazy_origin := "viol:lazy-empty-origins-count-as-same-origin".
+Definition t_lazy_sum := "viol:lazy-link-target-compared-with-file-content".
+Definition t_stream_origin := "viol:stream-empty-origin-any-clash-fails".
+Definition t_stream_sym := "viol:stream-symlink-clash-fails".
+
+Definition is_dir_kind (k : kind) : bool := kind_eqb k KDir.
+
+Definition quirk_rule (b : backend) : rule := fun gk wk got want gs ws =>
+  let sd := spec_clash_k got want gk wk gs ws in
+  if is_dir_kind gk && is_dir_kind wk then (QDec KeepOld, [])
+  else if is_dir_kind gk then (QFail, [t_dir_clash])           (* a directory is there: never part of the table *)
+  else if is_dir_kind wk then
+    match gk with
+    | KSym => (QStop, [])                                      (* MkdirAll follows the link *)
+    | _ => (QFail, [t_dir_clash])
+    end
+  else if is_lazy b then
+    (* tarfs: the table on the checksums alone (a link's checksum is that of its
+       target string); two empty origins count as the same origin *)
+    let d := spec_decide (N.eqb gs ws) (declares got want) (declares want got) (String.eqb (p_origin got) (p_origin want)) in
+    let d_origin := spec_decide (same_entry gk wk gs ws) (declares got want) (declares want got) (String.eqb (p_origin got) (p_origin want)) in
+    let d_sum := spec_decide (N.eqb gs ws) (declares got want) (declares want got) (spec_same_origin (p_origin got) (p_origin want)) in
+    (QDec d, if decision_eqb d sd then []
+             else if decision_eqb d d_origin then [t_lazy_origin]
+             else if decision_eqb d d_sum then [t_lazy_sum]
+             else [t_lazy_origin; t_lazy_sum])
+  else
+    match wk, gk with
+    | KSym, KSym => if N.eqb gs ws then (QDec KeepOld, []) else (QFail, [t_stream_sym])
+    | KSym, _ => (QFail, [t_stream_sym])                       (* Symlink() fails on anything that exists *)
+    | _, KSym => (QStop, [])                                   (* Stat/Open follow the link *)
+    | _, _ => if String.eqb (p_origin want) "" then (QFail, [t_stream_origin]) else (QDec sd, [])
+    end.
+Definition quirk_walk (b : backend) (pkgs : list pkg) : walk_res := walk_pkgs (quirk_rule b) pkgs 0 [] [] pkgs.
 
 (* the observation agrees with the outcome a rule prescribes *)
 Definition tkind_of (k : kind) : tkind := match k with KSym => TSym | KDir => TDir | _ => TReg end.
+Definition winner_present (tree : list tnode) (p : path) (v : nat * N * kind) : bool :=
+  match v, tree_get tree p with
+  | (_, cur, k), Some n => tkind_eqb (t_kind n) (tkind_of k) && (is_dir_kind k || N.eqb (t_sum n) cur)
+  | _, None => false
+  end.
 Definition winners_present (m : owners) (tree : list tnode) : bool :=
-  forallb (fun e =>
-    match own_get m (fst e), tree_get tree (fst e) with
-    | Some (_, cur, k), Some n => tkind_eqb (t_kind n) (tkind_of k) && N.eqb (t_sum n) cur
-    | _, _ => false
-    end) m.
+  forallb (fun e => match own_get m (fst e) with Some v => winner_present tree (fst e) v | None => false end) m.
 Definition agrees (r : walk_res) (e : eclass) (tree : list tnode) : bool :=
   match r with
-  | WConflict _ => eclass_eqb e EConflictClass
-  | WFail => eclass_eqb e EOtherClass
-  | WOk m => eclass_eqb e ENoError && winners_present m tree
+  | WConflict _ _ => eclass_eqb e EConflictClass
+  | WFail _ => eclass_eqb e EOtherClass
+  | WOk m _ => eclass_eqb e ENoError && winners_present m tree
+  | WStop _ _ _ _ => false
   end.
 
 (* readable form of [agrees (spec_walk pkgs)] *)
 Definition RulesObeyed (pkgs : list pkg) (e : eclass) (tree : list tnode) : Prop :=
   match spec_walk pkgs with
-  | WConflict _ => e = EConflictClass
-  | WFail => False
-  | WOk m => e = ENoError /\
+  | WConflict _ _ => e = EConflictClass
+  | WOk m _ => e = ENoError /\
       forall p i sm k, own_get m p = Some (i, sm, k) ->
-        exists n, tree_get tree p = Some n /\ t_kind n = tkind_of k /\ t_sum n = sm
+        exists n, tree_get tree p = Some n /\ t_kind n = tkind_of k /\ (k <> KDir -> t_sum n = sm)
+  | _ => False
   end.
+
+(* two packages ship [p] with different kinds (hard links aside) *)
+Definition kinds_at (pkgs : list pkg) (p : path) : list kind :=
+  List.map h_kind (filter (fun h => path_eqb (h_path h) p && negb (kind_eqb (h_kind h) KLink)) (flat_map p_files pkgs)).
+Definition kind_clash_at (pkgs : list pkg) (p : path) : bool :=
+  match kinds_at pkgs p with
+  | [] => false
+  | k :: ks => existsb (fun k' => negb (kind_eqb k k')) ks
+  end.
+
+Definition walk_tags (r : walk_res) : list string :=
+  match r with WOk _ u | WConflict _ u | WFail u | WStop _ _ _ u => u end.
 
 Definition check_rules (b : backend) (pkgs : list pkg) (e : eclass) (tree : list tnode) : list string :=
   if agrees (spec_walk pkgs) e tree then []
-  else if is_lazy b && agrees (walk_pkgs lazy_empty_origin_rule pkgs 0 [] pkgs) e tree
-  then ["viol:lazy-empty-origins-count-as-same-origin"]
-  else if negb (is_lazy b) && agrees (walk_pkgs (stream_quirk_rule true false) pkgs 0 [] pkgs) e tree
-  then ["viol:stream-empty-origin-any-clash-fails"]
-  else if negb (is_lazy b) && agrees (walk_pkgs (stream_quirk_rule false true) pkgs 0 [] pkgs) e tree
-  then ["viol:stream-symlink-clash-fails"]
-  else if negb (is_lazy b) && agrees (walk_pkgs (stream_quirk_rule true true) pkgs 0 [] pkgs) e tree
-  then ["viol:stream-empty-origin-any-clash-fails"; "viol:stream-symlink-clash-fails"]
-  else match spec_walk pkgs, e with
-  | WConflict _, ENoError => ["viol:silent-overwrite"]
-  | WConflict _, _ => ["viol:conflict-reported-as-other-error"]
-  | WOk _, ENoError => ["viol:wrong-winner"]
-  | WOk _, _ => ["viol:spurious-failure"]
-  | WFail, _ => ["viol:rules"]
-  end.
+  else
+    let generic :=
+      match spec_walk pkgs, e with
+      | WConflict p _, ENoError => if kind_clash_at pkgs p then ["viol:kind-clash-succeeds-silently"] else ["viol:silent-overwrite"]
+      | WConflict _ _, _ => ["viol:conflict-reported-as-other-error"]
+      | WOk m _, ENoError =>
+          if existsb (fun x => kind_clash_at pkgs (fst x) && negb (winner_present tree (fst x) (snd x))) m
+          then ["viol:kind-clash-succeeds-silently"] else ["viol:wrong-winner"]
+      | WOk _ _, _ => ["viol:spurious-failure"]
+      | _, _ => ["viol:rules"]
+      end in
+    let q := quirk_walk b pkgs in
+    match q with
+    | WStop p wk gs u =>
+        (* a link is in place and a directory header (any backend) or a regular
+           file (streaming) arrives: what happens depends on what the link
+           resolves to; the known outcomes are a plain error, or success with
+           the LINK still in place *)
+        let kept := match tree_get tree p with
+                    | Some n => tkind_eqb (t_kind n) TSym && N.eqb (t_sum n) gs
+                    | None => false end in
+        match e with
+        | EOtherClass => nodup string_dec (u ++ [if is_dir_kind wk then t_dir_clash else t_follow_link])
+        | ENoError => if kept then nodup string_dec (u ++ [if is_dir_kind wk then t_dir_over_link else t_follow_link]) else generic
+        | _ => generic
+        end
+    | _ => match walk_tags q with
+           | [] => generic
+           | u => if agrees q e tree then nodup string_dec u else generic
+           end
+    end.
 
 (* ---- validator 2: every recorded entry exists as recorded ----------------- *)
+(* the database text tells directories (F:) from everything else (R:) *)
 Definition EntryTrue (tree : list tnode) (d : dbent) : Prop :=
-  exists n, tree_get tree (d_path d) = Some n /\
+  exists n, tree_lookup tree (d_path d) = Some n /\
     (d_dir d = true <-> t_kind n = TDir) /\
     N.land (t_mode n) 511 = d_perm d /\
     ((t_uid n < 0)%Z \/ (t_uid n = Z.of_N (d_uid d) /\ t_gid n = Z.of_N (d_gid d))) /\
     (forall sm, d_sum d = Some sm -> t_kind n = TReg \/ t_kind n = TSym -> t_sum n = sm).
 
-(* [earlier_dir p] = the directory existed, or a header creating it was applied,
-   before the header this entry records; it only selects the tag *)
-Definition check_entry (pre tree : list tnode) (first_mode : path -> option N) (d : dbent) : list string :=
-  match tree_get tree (d_path d) with
+(* [b], [pre] and [first_mode] only select the tag *)
+Definition check_entry (b : backend) (pre tree : list tnode) (first_mode : path -> option N) (d : dbent) : list string :=
+  match tree_lookup tree (d_path d) with
   | None => ["viol:db-entry-missing-in-tree"]
   | Some n =>
+      if d_dir d && tkind_eqb (t_kind n) TSym
+      then [t_dir_over_link]          (* a directory entry where the tree has a symbolic link *)
+      else
       if negb (d_dir d) && tkind_eqb (t_kind n) TSym &&
          match d_sum d with Some sm => negb (N.eqb (t_sum n) sm) | None => false end
-      then ["viol:db-stale-entry-under-symlink"] else
-      tag_if (negb (Bool.eqb (d_dir d) (tkind_eqb (t_kind n) TDir))) "viol:db-entry-kind" ++
+      then [if is_lazy b then "viol:db-stale-entry-under-symlink" else t_follow_link] else
+      tag_if (negb (Bool.eqb (d_dir d) (tkind_eqb (t_kind n) TDir))) "viol:db-entry-kind-differs-from-tree" ++
       (if N.eqb (N.land (t_mode n) 511) (d_perm d) then []
        else if d_dir d && match first_mode (d_path d) with
                           | Some fm => N.eqb fm (N.land (t_mode n) 511) && negb (N.eqb fm (d_perm d))
@@ -167,6 +278,9 @@ Definition check_entry (pre tree : list tnode) (first_mode : path -> option N) (
             then ["viol:db-records-preexisting-file"]
             else if negb (d_dir d) && tkind_eqb (t_kind n) TReg && match d_sum d with None => true | Some _ => false end
             then ["viol:db-hardlink-records-header-mode"]   (* only hard links are written without a Z: line *)
+            else if negb (d_dir d) && tkind_eqb (t_kind n) TSym
+            then [if is_lazy b then t_lazy_sum else t_follow_link]
+                 (* a regular file's entry over a link whose target STRING has the file's checksum *)
             else ["viol:db-mode-mismatch"]) ++
       (if (t_uid n <? 0)%Z then []
        else if Z.eqb (t_uid n) (Z.of_N (d_uid d)) && Z.eqb (t_gid n) (Z.of_N (d_gid d)) then []
@@ -178,8 +292,8 @@ Definition check_entry (pre tree : list tnode) (first_mode : path -> option N) (
       end
   end.
 
-Definition check_db_entries (pre tree : list tnode) (first_mode : path -> option N) (db : list dbpkg) : list string :=
-  flat_map (fun p => flat_map (check_entry pre tree first_mode) (dp_entries p)) db.
+Definition check_db_entries (b : backend) (pre tree : list tnode) (first_mode : path -> option N) (db : list dbpkg) : list string :=
+  flat_map (fun p => flat_map (check_entry b pre tree first_mode) (dp_entries p)) db.
 
 (* ---- validator 3: every packaged regular file is recorded under exactly one
    package, the one whose content is present --------------------------------- *)
@@ -204,7 +318,7 @@ Definition has_dir_headers (pk : pkg) (p : path) : bool :=
 Definition check_recorded_once (pkgs : list pkg) (db : list dbpkg) (tree : list tnode) (h : hdr) (shipper : pkg) : list string :=
   match h_kind h with
   | KReg =>
-      match recorders pkgs db (h_path h), tree_get tree (h_path h) with
+      match recorders pkgs db (h_path h), tree_lookup tree (h_path h) with
       | _, Some {| t_kind := TSym |} => []     (* judged by [check_entry]: a stale entry under a symbolic link *)
       | [], Some n =>
           (* nobody records the path: named precisely when a package shipping the
